@@ -31,6 +31,7 @@ fn main() {
     ba_harness::world::quiet_panics();
     let report = match prop.as_str() {
         "c16" => props::c16::run(&cfg),
+        "c17" => props::c17::run(&cfg),
         _ => { eprintln!("unknown property {}", prop); std::process::exit(2); }
     };
     if let Some(dir) = std::path::Path::new(&cfg.out).parent() {
